@@ -44,6 +44,14 @@ class SSet:
             if c is None:
                 return bool(SBool(z3.Or(*[x.ext(8) == v for v in self.ints])))
             x = c
+        if getattr(x, "_sstr_", False):
+            if len(x) != 1:
+                return False
+            ch = x.c[0]
+            if isinstance(ch, str):
+                return ch in self.items or ord(ch) in self.items
+            codes = [ord(i) if isinstance(i, str) else i for i in self.items if not isinstance(i, (bytes,))]
+            return sym.elem_in(ch, codes)
         return x in self.items
 
 
